@@ -47,6 +47,9 @@ type c05Variant struct {
 	Batch    int     `json:"batch"`
 	MachComb bool    `json:"machcomb"`
 	Copies   int     `json:"copies"`
+	Pfx      int     `json:"pfx"`   // key prefix the consumer sees (0: all key columns); narrower than the source's when < len(types)
+	Reuse    bool    `json:"reuse"` // the source is the Result of an earlier invocation, consumed directly by the redistributing operators
+	Par      int     `json:"par"`   // local executor: Parallelism(par), so that producer tasks run concurrently in one process
 }
 
 type c05Case struct {
@@ -201,6 +204,28 @@ func (k *c05Keys) columns(rows []int) []reflect.Value {
 	return cols
 }
 
+// groups returns, per identity, the identities that share its first pfx key columns (itself included).
+func (k *c05Keys) groups(pfx int) [][]int {
+	by := map[string][]int{}
+	seen := map[int]bool{}
+	for i, vs := range k.vals {
+		id := k.ident[i]
+		if seen[id] {
+			continue
+		}
+		seen[id] = true
+		g := c05ID(vs[:pfx])
+		by[g] = append(by[g], id)
+	}
+	out := make([][]int, k.nid)
+	for _, ids := range by {
+		for _, id := range ids {
+			out[id] = ids
+		}
+	}
+	return out
+}
+
 type c05Place struct {
 	place []int // per identity: shard, -1 not seen, -2 seen in several shards
 	count []int // rows seen
@@ -263,7 +288,7 @@ func c05Hash(c *c05Case, k *c05Keys, v c05Variant) vtr.Rec {
 			p.see(k.ident[rows[v.Pad+i]], shards[i-a])
 		}
 	}
-	return vtr.Rec{"kind": "hash", "op": "partitioner", "place": p.place, "count": p.count, "mult": mult, "want": []int{}, "keyed": true, "agg": false, "err": "", "n": c.NShard}
+	return vtr.Rec{"kind": "hash", "op": "partitioner", "place": p.place, "count": p.count, "mult": mult, "want": []int{}, "keyed": true, "agg": false, "err": "", "n": c.NShard, "pfx": len(k.types), "reuse": false, "par": 0}
 }
 
 // ---- end to end
@@ -298,7 +323,7 @@ var (
 	c05IntPtr = reflect.TypeOf((*int)(nil))
 )
 
-var c05Func = bigslice.Func(func(specJSON string) bigslice.Slice {
+func c05ParseSpec(specJSON string) (*c05Spec, *c05Keys, *c05RunState) {
 	var spec c05Spec
 	if err := json.Unmarshal([]byte(specJSON), &spec); err != nil {
 		panic(err)
@@ -307,14 +332,36 @@ var c05Func = bigslice.Func(func(specJSON string) bigslice.Slice {
 	c05Mu.Lock()
 	st := c05Runs[spec.Run]
 	c05Mu.Unlock()
-	nk := len(k.types)
-	sliceOf := func(ts []reflect.Type) []reflect.Type {
-		out := make([]reflect.Type, len(ts))
-		for i, t := range ts {
-			out[i] = reflect.SliceOf(t)
-		}
-		return out
+	return &spec, k, st
+}
+
+func c05SliceOf(ts []reflect.Type) []reflect.Type {
+	out := make([]reflect.Type, len(ts))
+	for i, t := range ts {
+		out[i] = reflect.SliceOf(t)
 	}
+	return out
+}
+
+var c05Func = bigslice.Func(func(specJSON string) bigslice.Slice {
+	spec, k, st := c05ParseSpec(specJSON)
+	return c05Tail(spec, k, st, c05Source(spec, k))
+})
+
+// two invocations: the source is computed as a Result of its own and handed to the consumer
+var c05Stage1 = bigslice.Func(func(specJSON string) bigslice.Slice {
+	spec, k, _ := c05ParseSpec(specJSON)
+	return c05Source(spec, k)
+})
+
+var c05Stage2 = bigslice.Func(func(specJSON string, src bigslice.Slice) bigslice.Slice {
+	spec, k, st := c05ParseSpec(specJSON)
+	return c05Tail(spec, k, st, src)
+})
+
+func c05Source(spec *c05Spec, k *c05Keys) bigslice.Slice {
+	nk := len(k.types)
+	sliceOf := c05SliceOf
 	batch := spec.V.Batch
 	if batch <= 0 {
 		batch = 7
@@ -354,6 +401,23 @@ var c05Func = bigslice.Func(func(specJSON string) bigslice.Slice {
 	var s bigslice.Slice = src
 	if nk > 1 {
 		s = bigslice.Prefixed(s, nk)
+	}
+	return s
+}
+
+func c05Tail(spec *c05Spec, k *c05Keys, st *c05RunState, s bigslice.Slice) bigslice.Slice {
+	nk := len(k.types)
+	sliceOf := c05SliceOf
+	pfx := spec.V.Pfx
+	if pfx <= 0 || pfx > nk {
+		pfx = nk
+	}
+	if pfx != nk {
+		s = bigslice.Prefixed(s, pfx)
+	}
+	var groups [][]int
+	if pfx != nk {
+		groups = k.groups(pfx)
 	}
 	var branches []bigslice.Slice
 	for bi, op := range spec.V.Ops {
@@ -398,6 +462,13 @@ var c05Func = bigslice.Func(func(specJSON string) bigslice.Slice {
 					st.bad = append(st.bad, fmt.Sprintf("branch %d shard %d: unknown key %s", bi, shard, c05ID(cols)))
 					continue
 				}
+				if groups != nil && op.Op != "repartition" {
+					// placement is by the first pfx columns: the row is an observation for every key that shares them
+					for _, g := range groups[id] {
+						st.places[bi].see(g, shard)
+					}
+					continue
+				}
 				st.places[bi].see(id, shard)
 			}
 			c05Mu.Unlock()
@@ -413,7 +484,7 @@ var c05Func = bigslice.Func(func(specJSON string) bigslice.Slice {
 		return branches[0]
 	}
 	return bigslice.Cogroup(branches...)
-})
+}
 
 var c05RunSeq int
 
@@ -477,11 +548,25 @@ func c05E2E(c *c05Case, k *c05Keys, v c05Variant) (out []vtr.Rec) {
 			}
 		} else {
 			opts = append(opts, Local)
+			if v.Par > 1 {
+				opts = append(opts, Parallelism(v.Par))
+			}
 		}
 		sess := Start(opts...)
 		defer sess.Shutdown()
 		ctx, cancel := context.WithTimeout(context.Background(), 120*time.Second)
 		defer cancel()
+		if v.Reuse {
+			r1, err := sess.Run(ctx, c05Stage1, string(spec))
+			if err != nil {
+				errs = err.Error()
+				return
+			}
+			if _, err := sess.Run(ctx, c05Stage2, string(spec), r1); err != nil {
+				errs = err.Error()
+			}
+			return
+		}
 		if _, err := sess.Run(ctx, c05Func, string(spec)); err != nil {
 			errs = err.Error()
 		}
@@ -503,8 +588,19 @@ func c05E2E(c *c05Case, k *c05Keys, v c05Variant) (out []vtr.Rec) {
 			}
 		}
 		agg := op.Op == "reduce" || op.Op == "fold" || op.Op == "cogroup"
-		out = append(out, vtr.Rec{"kind": "e2e", "op": op.Op, "place": st.places[bi].place, "count": st.places[bi].count, "mult": mult, "want": want,
-			"keyed": op.Op != "repartition", "agg": agg, "err": errs, "n": n})
+		pfx, m := len(k.types), mult
+		if v.Pfx > 0 && v.Pfx < len(k.types) && op.Op != "repartition" {
+			// placement by the first Pfx columns: a key stands for its group, fed as often as the group was
+			pfx = v.Pfx
+			m = make([]int, k.nid)
+			for id, g := range k.groups(pfx) {
+				for _, o := range g {
+					m[id] += mult[o]
+				}
+			}
+		}
+		out = append(out, vtr.Rec{"kind": "e2e", "op": op.Op, "place": st.places[bi].place, "count": st.places[bi].count, "mult": m, "want": want,
+			"keyed": op.Op != "repartition", "agg": agg, "err": errs, "n": n, "pfx": pfx, "reuse": v.Reuse, "par": v.Par})
 	}
 	return
 }
